@@ -420,7 +420,7 @@ class SpectrumArithScenario(Scenario):
             'non-uniform grids; unitless and flux-density values; all four wavelength units): histories of binary operators (method and '
             'dunder forms; sampling min/left/right/float; linear/quadratic/cubic; fill values), scalar / vector / refused operands, queries, '
             'edits of results, and to(unit) on shared spectra by their owner between uses, with repeated and operand-swapped operations; '
-            'distinct = distinct history digest; non-trivial = at least one representation change, refusal, duplicate or interleaving fired '
+            'further workload ingredients added by the seeded rounds are listed in MANIFEST.json and DESIGN.md section 15; distinct = distinct history digest; non-trivial = at least one representation change, refusal, duplicate or interleaving fired '
             'and at least one model comparison was made')
     state_measure = 'distinct (operator form, unit pair, sampling option, range relation) combinations reached'
     assumptions = ['the common-grid length ceil(span/dwave) is judged only when span/dwave is at least 1e-6 away from an integer or is an '
